@@ -284,7 +284,9 @@ def run_history(rec, ops, base_draft):
                     kw = {}
                     name = None
                     if kind == "extend_override":
-                        name = rng.choice(["vf-kw", "minLength", "type", "vf-other", "format"])
+                        # any keyword may be overridden (only that keyword's behaviour may change)
+                        name = rng.choice(["vf-kw", "minLength", "type", "vf-other", "format"] +
+                                          sorted(k for k in C["obj"].VALIDATORS if k != "$ref"))
                         kw["validators"] = {name: kw_fn("e%d" % n)}
                     same_tc = False
                     if kind == "extend_typechecker":
@@ -316,8 +318,11 @@ def run_history(rec, ops, base_draft):
                             # only the overridden keyword may behave differently
                             for (s, i), a, b in zip(BATTERY, C["vec"]["battery"], nrec["vec"]["battery"]):
                                 if isinstance(a, list) and isinstance(b, list) and passthrough_only(s, name):
-                                    fa = [e for e in a if e[0] != repr(name)]
-                                    fb = [e for e in b if e[0] != repr(name)]
+                                    # errors attributed to the overridden keyword: those it yields itself and, for an
+                                    # applicator, those reached through it (its name is a step of their schema path)
+                                    steps = [repr(name)] + (["'then'", "'else'"] if name == "if" else [])
+                                    fa = [e for e in a if e[0] != repr(name) and not any(st_ in e[3] for st_ in steps)]
+                                    fb = [e for e in b if e[0] != repr(name) and not any(st_ in e[3] for st_ in steps)]
                                     if fa != fb:
                                         rec.violation("override-changed-other-keywords", dict(case, step=n, keyword=name, schema=s, instance=i),
                                                       "overriding %r changed errors of other keywords: %r vs %r" % (name, fa[:2], fb[:2]))
